@@ -1226,6 +1226,18 @@ def run_faults(ctx):
             elif _kinds(exp[1])[len(exp[1]) - len(mlog):] != _kinds(mlog):
                 ctx.disagree("ogg save program: order of file-object calls", case, model=",".join(mlog)[:300],
                              impl=",".join(exp[1][max(0, len(exp[1]) - len(mlog)):])[:300])
+            else:
+                # the program with its reads (op=savefull / deletefull): the WHOLE log of calls, behind verify_fileobj's
+                # probes read(0), write(0)
+                full = ask_model(ctx, [line.replace("op=savem", "op=savefull").replace("op=deletem", "op=deletefull")])[0]
+                fst, ffld = parse_fields(full)
+                if fst != "bad-op":
+                    flog = [] if ffld.get("log", "-") == "-" else ffld["log"].split(",")
+                    real = [x for x in exp[1]]
+                    skip = len(real) - len(flog)
+                    ctx.traces_validated += 1
+                    if fst != "ok" or ffld.get("data") != hx(exp[2]) or skip < 0 or skip > 2 or _kinds(real[skip:]) != _kinds(flog):
+                        ctx.disagree("ogg save program with its reads: outcome or calls", case, model=full[-300:], impl=",".join(real)[:300])
         elif exp[0] == "run":
             ctx.traces_validated += 1
             want = "ok" if exp[1] == "ok" else "err:" + exp[1].split(" ")[1]
